@@ -729,23 +729,28 @@ func (dc *ClientDnsConnection) AutodetectFragmentSize() (uint32, error) {
 				}
 			} else {
 				max = proposed
-			}
-
-			if max < 0 {
 				break
 			}
+		}
 
-			fragmentRange = fragmentRange >> 1
+		// The search step is taken after every probe round, whether it found the size working or not: a size
+		// that does not get through (time-out, error) means "try smaller".
+		fragmentRange = fragmentRange >> 1
 
-			if max == proposed {
-				/* Try bigger */
-				log.Tracef("%d ok, will try %d next.. ", proposed, proposed+fragmentRange)
-				proposed += fragmentRange
-			} else {
-				/* Try smaller */
-				log.Tracef("%d not ok, will try %d next.. ", proposed, proposed-fragmentRange)
-				proposed -= fragmentRange
+		if max == proposed {
+			/* Try bigger */
+			log.Tracef("%d ok, will try %d next.. ", proposed, proposed+fragmentRange)
+			proposed += fragmentRange
+		} else {
+			/* Try smaller */
+			log.Tracef("%d not ok, will try %d next.. ", proposed, proposed-fragmentRange)
+			if proposed <= fragmentRange {
+				break
 			}
+			proposed -= fragmentRange
+		}
+		if fragmentRange == 0 {
+			break
 		}
 	}
 	if dc.Closed() {
